@@ -9,7 +9,7 @@ import numpy as np
 from harness import store_fixtures as sf
 
 UNIVERSE = ['ra', 'dec', 'time', 'run', 'azi', 'zen', 'uid', 'user', 'log_energy', 'ang_err', 'mcweight',
-            'true_ra', 'pre', 'stat', 'atmo', 'astro']
+            'true_ra', 'pre', 'stat', 'atmo', 'astro', 'true_dec', 'sin_true_dec', 'true_energy', 'sin_dec', 'gfp']
 IDX = {n: i for i, n in enumerate(UNIVERSE)}
 TWO_PI = 2 * np.pi
 
@@ -99,6 +99,10 @@ class StubLLH:
 
     def maximize(self, rss, tl=None):
         ev = self.tdm.events
+        # the evaluation of the LLH ratio re-calculates the data fields that depend on global fit parameters: the real
+        # TrialDataManager assigns them into tdm.events
+        self.gamma = getattr(self, 'gamma', 2.0) + 0.25
+        self.tdm.calculate_global_fitparam_data_fields(shg_mgr=self.shg, pmm=self.pmm, global_fitparams_dict={'gamma': self.gamma})
         s = 0.0
         for n in ev.field_name_list:
             s += float(np.sum(self.tdm.get_data(n).astype(np.float64))) if len(ev) else 0.0
@@ -142,7 +146,7 @@ class World:
 
         def table(k, uid0, mc):
             d = {'ra': rs.uniform(0, TWO_PI, k).astype(f), 'dec': rs.uniform(-1.5, 1.5, k).astype(f),
-                 'time': np.sort(rs.uniform(55000, 55010, k)),
+                 'time': np.sort(rs.uniform(55000, 55010, k)).astype(np.float32 if spec.get('time32') else np.float64),
                  'run': rs.randint(0, max(2, k // 2 + 1), k).astype(i),
                  'azi': rs.uniform(0, TWO_PI, k).astype(f), 'zen': rs.uniform(0, np.pi, k),
                  'log_energy': rs.uniform(2, 6, k).astype(f), 'ang_err': rs.uniform(0.01, 0.1, k)}
@@ -151,8 +155,14 @@ class World:
                 d['uid'] = (uid0 + np.arange(k)).astype(np.int64)
                 d['user'] = rs.randint(0, 2, k).astype(np.bool_)
             if mc:
-                d['mcweight'] = rs.uniform(0.5, 1.5, k)
+                d['mcweight'] = rs.uniform(0.5, 1.5, k) * 1e9
                 d['true_ra'] = rs.uniform(0, TWO_PI, k)
+                # what the real point-source signal generation method needs
+                td = np.arcsin(rs.uniform(-1, 1, k))
+                d['true_dec'] = td
+                d['sin_true_dec'] = np.sin(td)
+                d['true_energy'] = 10 ** rs.uniform(2, 6, k)
+                d['sin_dec'] = np.sin(d['dec'].astype(np.float64))
             return d
         self.cfg = Config()
         self.exp = D(table(n, 1000, False), copy=True)
@@ -231,6 +241,10 @@ class World:
         self.tdm = TrialDataManager(index_field_name=tc['index'])
         if tc['pre']:
             self.tdm.add_data_field('pre', lambda tdm, shg_mgr, pmm: tdm.events['ra'].astype(np.float64) * 2.0, pre_evt_sel=True)
+        if tc.get('gfp'):
+            self.tdm.add_data_field(
+                'gfp', lambda tdm, shg_mgr, pmm, global_fitparams_dict: tdm.events['ra'].astype(np.float64) + global_fitparams_dict['gamma'],
+                global_fitparam_names=['gamma'])
         if tc['stat']:
             self.tdm.add_data_field('stat', lambda tdm, shg_mgr, pmm: np.arange(len(tdm.events), dtype=np.float64) + 0.5)
         ana = object.__new__(Ana)
@@ -243,11 +257,14 @@ class World:
         ana._dataset_list = [self.ds]
         ana._data_list = [self.data]
         ana._tdm_list = [self.tdm]
-        ana._event_selection_method_list = [PreSel() if tc['sel'] else None]
+        from skyllh.core.event_selection import AllEventSelectionMethod
+        # 'all': the real pass-through selection (returns the events object it was given)
+        ana._event_selection_method_list = [AllEventSelectionMethod(shg_mgr=self.shg) if tc['sel'] == 'all' else PreSel() if tc['sel'] else None]
         ana._bkg_generator_list = [None]
         ana._bkg_generator = None
         ana._sig_generator_list = [None]
         ana._llhratio = StubLLH(self.tdm)
+        ana._llhratio.shg, ana._llhratio.pmm = self.shg, ana._pmm
         ana._pdfratio_list = [None]
         ana._detsigyield_service = ana._src_detsigyield_weights_service = ana._ds_sig_weight_factors_service = None
 
@@ -260,6 +277,21 @@ class World:
         self.sig_uid = -1
 
     # -- building blocks -------------------------------------------------------------------
+    def real_signal_generator(self, valid_ranges=False):
+        """the real MCMultiDatasetSignalGenerator + PointLikeSourceI3SignalGenerationMethod on this data set (set-up
+        helpers of harness/siggen_fixtures.py, read-only reuse); only the detector signal yield is prescribed"""
+        key = 'sigreal%d' % valid_ranges
+        if key not in self.__dict__:
+            from harness import siggen_fixtures as fx
+            from skyllh.core.signal_generator import MCMultiDatasetSignalGenerator
+            shg = fx.make_shg_mgr(self.cfg, [dict(sources=[(1.0, 0.1, 1.0), (4.0, -0.3, 0.5)], hbw=1.0)])
+            (_, _, dswf) = fx.make_weight_services(shg, np.ones((1, shg.n_sources)))
+            vr = [{'dec': (-1.2, 1.2)}] if valid_ranges else None      # events outside are re-drawn (set_selection by mask)
+            self.__dict__[key] = MCMultiDatasetSignalGenerator(
+                shg_mgr=shg, dataset_list=[self.ds], data_list=[self.data], valid_event_field_ranges_dict_list=vr,
+                ds_sig_weight_factors_service=dswf, cfg=self.cfg)
+        return self.__dict__[key]
+
     def make_signal(self, rss, k):
         """k signal events with the fields of the experimental data (wider dtypes than the narrow data set)"""
         d = {}
@@ -299,5 +331,7 @@ def gen_spec(rng):
             'narrow': rng.random() < 0.6, 'extra': True, 'ra_range': gen_ra_range(rng),
             'mc_variant': {'scr': rng.choice([None, 'uniform', 'i3time', 'uniform_range', 'seasonal']), 'presel': rng.random() < 0.4,
                            'keep': gen_keep(rng)},
+            'time32': rng.random() < 0.3,
             'trial': {'index': rng.choice([None, 'run', 'run', 'time']), 'pre': rng.random() < 0.5,
-                      'stat': rng.random() < 0.7, 'sel': rng.random() < 0.4}}
+                      'stat': rng.random() < 0.7, 'sel': rng.choice([False, False, True, True, 'all']),
+                      'gfp': rng.random() < 0.6}}
